@@ -7,6 +7,7 @@
 package c08
 
 import (
+	"crypto/sha256"
 	"encoding/json"
 	"fmt"
 	"net/url"
@@ -36,7 +37,7 @@ type Ref struct {
 }
 
 type Op struct {
-	Kind    string `json:"kind"` // issue | userinfo | introspect | revoke | end_session | expire | exchange
+	Kind    string `json:"kind"` // issue | userinfo | introspect | revoke | end_session | expire | exchange | par
 	Client  string `json:"client,omitempty"`
 	User    string `json:"user,omitempty"`
 	Scope   int    `json:"scope,omitempty"`
@@ -45,32 +46,36 @@ type Op struct {
 	Tok     Ref    `json:"tok"`
 	Actor   *Ref   `json:"actor,omitempty"`
 	Caller  string `json:"caller,omitempty"` // owner | ca | cb | cp | ck | ck2 | svc
-	Cred    string `json:"cred,omitempty"`   // right | wrong | idonly | madeup-basic | madeup-post (a made-up secret, also for clients that have none: public, private_key_jwt) | imp
+	Cred    string `json:"cred,omitempty"`   // right | wrong | idonly (client_id in the form, nothing else) | empty-basic (Basic with an empty password) | madeup-basic | madeup-post (a made-up secret, also for clients that have none: public, private_key_jwt) | imp
 	By      string `json:"by,omitempty"`     // cred "imp": the real sender, a private_key_jwt client (ck | ck2) other than Caller; the assertion names Caller as iss and sub but carries the sender's own kid and signature
 	Warm    bool   `json:"warm,omitempty"`   // cred "imp": immediately before, the real sender makes a legitimate introspection request as itself (same token)
 	Hint    string `json:"hint,omitempty"`
-	Fault   string `json:"fault,omitempty"` // "" | error | partial  (storage failure inside userinfo / introspection)
-	Form    bool   `json:"form,omitempty"`  // userinfo: token in the POST body
-	Req     string `json:"req,omitempty"`   // exchange: requested type "" | access | refresh
-	ES      string `json:"es,omitempty"`    // end_session: hint | hint+client | clientonly
-	Spoof   bool   `json:"spoof,omitempty"` // revoke / introspect by a non-owner: additionally send client_id=<owner> in the body
+	Fault   string `json:"fault,omitempty"`    // "" | error | partial | ... (vkit fault kinds): storage failure inside userinfo / introspection / at the revocation / termination call
+	FaultAt string `json:"fault_at,omitempty"` // revoke: "" the fault hits Storage.RevokeToken | "lookup": Storage.GetRefreshTokenInfo
+	RTName  string `json:"rt_name,omitempty"`  // issue: how the storage names the refresh token: "" (rt-N-...) | one of rtNames (a string that unseals, under the provider's key, to text with a colon)
+	Par     *Par   `json:"par,omitempty"`      // kind "par": requests in flight while a revocation / logout / expiry completes
+	Form    bool   `json:"form,omitempty"`     // userinfo: token in the POST body
+	Req     string `json:"req,omitempty"`      // exchange: requested type "" | access | refresh
+	ES      string `json:"es,omitempty"`       // end_session: hint | hint+client | clientonly
+	Spoof   bool   `json:"spoof,omitempty"`    // revoke / introspect by a non-owner: additionally send client_id=<owner> in the body
 }
 
 type Case struct {
-	ErrStyle   string   `json:"err_style,omitempty"` // how the storage words its own refusals (vkit.Store.refuse)
-	Router     string   `json:"router"`
-	Hosts      bool     `json:"hosts,omitempty"` // issuer derived from the Host header: two issuers share storage and keys
-	Alg        string   `json:"alg"`
-	CryptoKey  byte     `json:"crypto_key,omitempty"`
-	JWT        []string `json:"jwt,omitempty"` // clients whose access tokens are JWTs
-	CBPost     bool     `json:"cb_post,omitempty"`
-	ExtraAud   string   `json:"extra_aud,omitempty"`
-	Extras     bool     `json:"extras,omitempty"`
-	TELax      bool     `json:"te_lax,omitempty"`      // storage does NOT check liveness of access-token subject/actor in ValidateTokenExchangeRequest (grey)
-	RefreshIDs bool     `json:"refresh_ids,omitempty"` // storage gives refresh tokens an id that differs from the token string
-	K2Kid      string   `json:"k2_kid,omitempty"`      // key id under which the second private_key_jwt client (ck2) registered its key; "" = "kk", the same kid the first one (ck) uses for a different key
-	Ops        []Op     `json:"ops"`
-	Sweep      bool     `json:"sweep,omitempty"` // after the history: present every token once more at userinfo, introspection and exchange
+	ErrStyle   string            `json:"err_style,omitempty"` // how the storage words its own refusals (vkit.Store.refuse)
+	Router     string            `json:"router"`
+	Hosts      bool              `json:"hosts,omitempty"` // issuer derived from the Host header: two issuers share storage and keys
+	Alg        string            `json:"alg"`
+	CryptoKey  byte              `json:"crypto_key,omitempty"`
+	JWT        []string          `json:"jwt,omitempty"` // clients whose access tokens are JWTs
+	CBPost     bool              `json:"cb_post,omitempty"`
+	ExtraAud   string            `json:"extra_aud,omitempty"`
+	Extras     bool              `json:"extras,omitempty"`
+	TELax      bool              `json:"te_lax,omitempty"`      // storage does NOT check liveness of access-token subject/actor in ValidateTokenExchangeRequest (grey)
+	RefreshIDs bool              `json:"refresh_ids,omitempty"` // storage gives refresh tokens an id that differs from the token string
+	AppTypes   map[string]string `json:"app_types,omitempty"`   // client id -> application type (web | native | user_agent); absent: ca cb ck ck2 svc web, cp native
+	K2Kid      string            `json:"k2_kid,omitempty"`      // key id under which the second private_key_jwt client (ck2) registered its key; "" = "kk", the same kid the first one (ck) uses for a different key
+	Ops        []Op              `json:"ops"`
+	Sweep      bool              `json:"sweep,omitempty"` // after the history: present every token once more at userinfo, introspection and exchange
 }
 
 var (
@@ -86,6 +91,15 @@ var (
 		"tok%20en", "at-1", "YXQtMTp1MQ", "eyJhbGciOiJSUzI1NiJ9.eyJqdGkiOiJhdC0xIiwic3ViIjoidTEifQ.AAAA", "-", "____", "0",
 	}
 	scopeVariants = []string{"openid", "openid profile", "openid email profile", "openid email phone"}
+	// storage failures at the call that performs a revocation / termination (vkit fault kinds): plain error, deadline, ready-made
+	// OAuth errors, sentinels of the library, and "partial" (the storage did the work and reports a failure all the same)
+	callFaults = []string{"error", "error", "deadline", "deadline", "oidc", "oidc-wrapped", "partial", "canceled", "deadline-wrapped", "access-denied", "invalid-refresh", "invalid-refresh-wrapped", "key-none", "slow-down"}
+	// failures of the refresh-token lookup that precedes a revocation. Not the sentinel ErrInvalidRefreshToken: with it the
+	// storage SAYS that the string is no refresh token and the library is right to believe it
+	lookupFaults = []string{"error", "deadline", "oidc", "oidc-wrapped", "canceled", "access-denied"}
+	// refresh token strings are the storage's choice; opaque access tokens are unauthenticated AES-CFB, so a refresh token
+	// string may happen to unseal to text with a colon, i.e. look like an opaque access token "id:subject"
+	rtNames = []string{"pair-unknown", "pair-unknown", "pair-short", "pair-empty", "pair-binary", "pair-binary", "pair-colons"}
 )
 
 // idForges: how an ID token reference is presented ("" = as issued).
@@ -113,6 +127,10 @@ func genIssue(t *rapid.T, label string, hosts bool) Op {
 	if hosts {
 		o.Other = rapid.IntRange(0, 2).Draw(t, label+"other") == 0
 	}
+	if o.Offline && rapid.IntRange(0, 2).Draw(t, label+"rtnamed") == 0 {
+		o.RTName = rapid.SampledFrom(rtNames).Draw(t, label+"rtname")
+		o.Tok.Arg = rapid.IntRange(0, 400).Draw(t, label+"rtarg")
+	}
 	return o
 }
 
@@ -125,9 +143,13 @@ func genOp(t *rapid.T, i int, hosts bool) Op {
 		"revoke", "revoke", "revoke", "revoke", "revoke",
 		"end_session", "end_session", "expire", "expire",
 		"exchange", "exchange", "exchange",
+		"par", "par",
 	}).Draw(t, label+"kind")
 	if kind == "issue" {
 		return genIssue(t, label, hosts)
+	}
+	if kind == "par" {
+		return genPar(t, label, hosts)
 	}
 	forged := 4
 	if kind == "revoke" {
@@ -146,21 +168,30 @@ func genOp(t *rapid.T, i int, hosts bool) Op {
 		o.Fault = rapid.SampledFrom([]string{"", "", "", "", "", "", "", "error", "partial"}).Draw(t, label+"fault")
 	case "introspect":
 		o.Caller = rapid.SampledFrom([]string{"owner", "owner", "owner", "ca", "cb", "cp", "ck", "svc", "ck2"}).Draw(t, label+"caller")
-		o.Cred = rapid.SampledFrom([]string{"right", "right", "right", "right", "right", "right", "right", "wrong", "idonly", "madeup-basic", "madeup-post", "imp", "imp"}).Draw(t, label+"cred")
+		o.Cred = rapid.SampledFrom([]string{"right", "right", "right", "right", "right", "right", "right", "wrong", "idonly", "empty-basic", "madeup-basic", "madeup-post", "imp", "imp"}).Draw(t, label+"cred")
 		o.Fault = rapid.SampledFrom([]string{"", "", "", "", "", "", "", "error", "partial"}).Draw(t, label+"fault")
 		genImp(t, label, &o)
 		o.Spoof = rapid.IntRange(0, 3).Draw(t, label+"spoof") == 0
 	case "revoke":
 		o.Caller = rapid.SampledFrom([]string{"owner", "owner", "owner", "owner", "ca", "cb", "cp", "ck", "svc", "ck2"}).Draw(t, label+"caller")
-		o.Cred = rapid.SampledFrom([]string{"right", "right", "right", "right", "right", "wrong", "idonly", "madeup-basic", "madeup-post", "imp"}).Draw(t, label+"cred")
+		o.Cred = rapid.SampledFrom([]string{"right", "right", "right", "right", "right", "right", "wrong", "idonly", "idonly", "empty-basic", "madeup-basic", "madeup-post", "imp"}).Draw(t, label+"cred")
 		o.Hint = rapid.SampledFrom([]string{"", "", "access_token", "refresh_token", "junk"}).Draw(t, label+"hint")
 		genImp(t, label, &o)
 		o.Spoof = rapid.IntRange(0, 2).Draw(t, label+"spoof") == 0
+		if rapid.IntRange(0, 5).Draw(t, label+"faulted") == 0 {
+			o.Fault = rapid.SampledFrom(callFaults).Draw(t, label+"fault")
+			if rapid.IntRange(0, 3).Draw(t, label+"faultat") == 0 {
+				o.FaultAt, o.Fault = "lookup", rapid.SampledFrom(lookupFaults).Draw(t, label+"lfault")
+			}
+		}
 	case "end_session":
 		o.ES = rapid.SampledFrom([]string{"hint", "hint", "hint+client", "clientonly", "exphint", "exphint", "exphint+client"}).Draw(t, label+"es")
+		if rapid.IntRange(0, 3).Draw(t, label+"faulted") == 0 {
+			o.Fault = rapid.SampledFrom(callFaults).Draw(t, label+"fault")
+		}
 	case "exchange":
 		o.Caller = rapid.SampledFrom([]string{"ca", "ca", "ca", "cb", "cb", "ck", "owner", "ck2"}).Draw(t, label+"caller")
-		o.Cred = rapid.SampledFrom([]string{"right", "right", "right", "right", "right", "right", "wrong", "idonly", "madeup-basic", "madeup-post", "imp"}).Draw(t, label+"cred")
+		o.Cred = rapid.SampledFrom([]string{"right", "right", "right", "right", "right", "right", "wrong", "idonly", "empty-basic", "madeup-basic", "madeup-post", "imp"}).Draw(t, label+"cred")
 		o.Req = rapid.SampledFrom([]string{"", "", "access", "refresh"}).Draw(t, label+"req")
 		genImp(t, label, &o)
 		if rapid.IntRange(0, 2).Draw(t, label+"hasactor") == 0 {
@@ -195,6 +226,15 @@ func genCase(t *rapid.T) Case {
 	}
 	if rapid.Bool().Draw(t, "errstyled") {
 		c.ErrStyle = rapid.SampledFrom(vkit.ErrStyles).Draw(t, "errstyle")
+	}
+	// application type and registered auth method are independent registration data: every client kind as web / native / user-agent
+	if rapid.IntRange(0, 2).Draw(t, "apptyped") != 0 {
+		c.AppTypes = map[string]string{}
+		for _, id := range clientIDs {
+			if at := rapid.SampledFrom([]string{"", "web", "native", "native", "user_agent"}).Draw(t, "apptype-"+id); at != "" {
+				c.AppTypes[id] = at
+			}
+		}
 	}
 	return c
 }
@@ -309,6 +349,10 @@ type env struct {
 	trace   []string
 	signKey string
 	badKey  string
+	// concurrent steps
+	lastFaulted bool   // the last revocation / logout ran into its injected storage failure
+	fpSuffix    string // appended to every fingerprint raised inside a concurrent step
+	gateJ0      int    // journal length when the first gate was registered (-1: none yet): the store counts calls per method from there
 }
 
 const redirectURI = "https://rp.example.com/cb"
@@ -657,6 +701,8 @@ func (e *env) cred(cl *vkit.ClientSpec, kind string, h int) vkit.Cred {
 	switch kind {
 	case "idonly":
 		return vkit.Cred{Kind: "none", ClientID: cl.ID}
+	case "empty-basic":
+		return vkit.Cred{Kind: "basic", ClientID: cl.ID}
 	case "madeup-basic":
 		return vkit.Cred{Kind: "basic", ClientID: cl.ID, Secret: madeUpSecret}
 	case "madeup-post":
@@ -739,9 +785,9 @@ func (e *env) authVerdict(endpoint string, cl *vkit.ClientSpec, kind string) int
 	public := cl.AuthMethod == "none"
 	if public {
 		if endpoint == "revocation" {
-			if strings.HasPrefix(kind, "madeup-") {
-				// identification is all a public client can offer; a secret next to it is neither required nor verifiable.
-				// Whether such a request is served is not the statement's subject (the two routers differ): grey
+			if strings.HasPrefix(kind, "madeup-") || kind == "empty-basic" {
+				// identification is all a public client can offer; a secret (or an empty Basic password) next to it is neither
+				// required nor verifiable. Whether such a request is served is not the statement's subject (the two routers differ): grey
 				return 0
 			}
 			return 1 // public clients may revoke their own tokens by client_id
@@ -776,6 +822,7 @@ var scrubRE = regexp.MustCompile(`[0-9]{9,}|[A-Za-z0-9_.-]{28,}`)
 
 func (e *env) fail(fp, format string, a ...any) {
 	msg := fmt.Sprintf(format, a...)
+	fp += e.fpSuffix
 	e.res.Fail(fp, "%s  [history: %s]", scrubRE.ReplaceAllString(msg, "<..>"), strings.Join(e.trace, " ; "))
 }
 
@@ -824,10 +871,15 @@ func (e *env) adopt(resp *vkit.Resp, client, subject, flow string, h int) *grant
 	t.client, t.subject, t.aud, t.scopes = client, subject, snap.Audience, snap.Scopes
 	g.subject = t.subject
 	g.access = t
+	if snap.Revoked {
+		// issued by a request that was in flight while the session of its (user, client) was terminated: born dead
+		t.ended = true
+		e.res.Label("adopted-dead")
+	}
 	e.addTok(t)
 	if rs := resp.Str("refresh_token"); rs != "" {
 		if rsnap, ok := e.st.RefreshSnapshot(rs); ok {
-			rt := &mtok{id: rs, kind: "refresh", str: rs, client: client, subject: subject, host: g.host, aud: rsnap.Audience, scopes: rsnap.Scopes, link: t}
+			rt := &mtok{id: rs, kind: "refresh", str: rs, client: client, subject: subject, host: g.host, aud: rsnap.Audience, scopes: rsnap.Scopes, link: t, ended: rsnap.Dead}
 			t.link = rt
 			g.refresh = rt
 			e.addTok(rt)
@@ -884,10 +936,56 @@ func (e *env) issue(o Op) {
 		e.res.Label("issue-failed:undecodable")
 		return
 	}
-	e.res.Label("issued:"+g.access.kind, "issued-by:"+cl.ID)
+	e.res.Label("issued:"+g.access.kind, "issued-by:"+cl.ID, "issued-to:"+cl.AuthMethod+"/"+cl.AppType)
 	if g.refresh != nil {
 		e.res.Label("issued:refresh")
+		if o.RTName != "" {
+			e.nameRefresh(g.refresh, o.RTName, o.Tok.Arg)
+		}
 	}
+}
+
+// nameRefresh: the storage of this case names the refresh token just issued differently. Refresh token strings are the
+// storage's choice; the name is crafted (the harness knows the provider's AES key) so that it "unseals" to text with a
+// colon - what about one in 25 random base64url names of sufficient length does by accident. The plaintexts name no
+// token record. Done on the quiescent store, like Store.ExpireToken: record, index and back reference are renamed.
+func (e *env) nameRefresh(rt *mtok, kind string, arg int) {
+	var plain string
+	switch kind {
+	case "pair-unknown": // exactly the shape of an opaque access token, id unknown
+		plain = fmt.Sprintf("at-%d:%s", 9500+arg, rt.subject)
+	case "pair-short":
+		plain = "x:y"
+	case "pair-empty":
+		plain = ":"
+	case "pair-colons":
+		plain = fmt.Sprintf("zz%d::%s:", arg, rt.subject)
+	default: // pair-binary: arbitrary bytes, one of them a colon
+		h := sha256.Sum256([]byte(fmt.Sprintf("c08-rt|%d|%s", arg, rt.str)))
+		b := h[:8+arg%20]
+		for i := range b {
+			if b[i] == ':' {
+				b[i] = ';'
+			}
+		}
+		b[1+arg%(len(b)-1)] = ':'
+		plain = string(b)
+	}
+	name := seal(plain, e.key, "rt|"+rt.str)
+	rec, ok := e.st.Refresh[rt.str]
+	if !ok || e.st.Refresh[name] != nil || e.byID[name] != nil {
+		return
+	}
+	delete(e.st.Refresh, rt.str)
+	rec.Token = name
+	e.st.Refresh[name] = rec
+	if at, ok := e.st.Tokens[rec.AccessID]; ok {
+		at.RefreshID = name
+	}
+	delete(e.byID, rt.str)
+	rt.str, rt.id = name, name
+	e.byID[name] = rt
+	e.res.Label("refresh-name:unseals-to:" + kind)
 }
 
 func (e *env) caller(name string, p presented) *vkit.ClientSpec {
@@ -932,6 +1030,16 @@ func (e *env) useClass(endpoint string, p presented, v int, why string) {
 	}
 }
 
+// faultFired: did a storage call since journal position j0 run into the injected fault?
+func (e *env) faultFired(j0 int) bool {
+	for _, j := range e.st.Journal[j0:] {
+		if j.Fault {
+			return true
+		}
+	}
+	return false
+}
+
 func (e *env) setFault(method, kind string) {
 	if kind != "" {
 		e.st.SetFaults(vkit.Fault{Method: method, Kind: kind})
@@ -943,40 +1051,63 @@ func (e *env) userinfo(o Op) {
 	e.userinfoP(o, e.resolve(o.Tok, h), h)
 }
 
+// pending is a read request (userinfo / introspection / token exchange) split into its phases - expectation, sending,
+// judging - so that the harness decides when it is in flight: sequentially (judge(send())) or overlapping other requests.
+type pending struct {
+	endpoint string
+	p        presented
+	v        int // +1 must be honoured, -1 must be refused, 0 grey
+	why      string
+	send     func() *vkit.Resp // touches nothing of the model (may run on its own goroutine)
+	judge    func(pd *pending, resp *vkit.Resp)
+}
+
 func (e *env) userinfoP(o Op, p presented, h int) {
+	pd := e.userinfoPrep(o, p, h)
+	e.setFault("SetUserinfoFromToken", o.Fault)
+	resp := pd.send()
+	e.st.SetFaults()
+	pd.judge(pd, resp)
+}
+
+func (e *env) userinfoPrep(o Op, p presented, h int) *pending {
 	v, why := e.readVerdict(p, h, true)
 	if o.Fault != "" && v > 0 {
 		v, why = 0, "storage-fault"
 	}
-	e.useClass("userinfo", p, v, why)
-	e.setFault("SetUserinfoFromToken", o.Fault)
-	var resp *vkit.Resp
-	if o.Form {
-		resp = e.ags[h].Post(e.sut.Paths["userinfo"], url.Values{"access_token": {p.str}}, nil)
-	} else {
-		resp = e.ags[h].UserInfo(p.str)
-	}
-	e.st.SetFaults()
-	if e.panicked("userinfo", resp) {
-		return
-	}
-	ok := resp.Success()
-	sub := resp.Str("sub")
-	switch {
-	case v > 0 && !ok:
-		e.fail("C08:complete:userinfo", "userinfo refused a live %s access token of %s/%s: %s", p.kind(), p.tok.client, p.tok.subject, resp.Describe())
-	case v < 0 && ok:
-		e.fail("C08:userinfo-honours:"+why, "userinfo answered %d with claims for a token string that must not be honoured (%s; forge=%q): %s", resp.Status, why, p.forge, resp.Describe())
-	}
-	if ok && p.tok != nil && sub != p.tok.subject {
-		e.fail("C08:userinfo-wrong-subject", "userinfo for the token of %s returned sub=%q: %s", p.tok.subject, sub, resp.Describe())
-	}
-	if !ok {
-		if l := hasLeak(resp.Body); l != "" {
-			e.fail("C08:userinfo-refusal-leaks", "userinfo refusal (%d) carries user data %q: %s", resp.Status, l, resp.Describe())
+	pd := &pending{endpoint: "userinfo", p: p, v: v, why: why}
+	ag, path := e.ags[h], e.sut.Paths["userinfo"]
+	pd.send = func() *vkit.Resp {
+		if o.Form {
+			return ag.Post(path, url.Values{"access_token": {p.str}}, nil)
 		}
+		return ag.UserInfo(p.str)
 	}
-	e.res.Label(fmt.Sprintf("userinfo->%v", ok))
+	pd.judge = func(pd *pending, resp *vkit.Resp) {
+		v, why := pd.v, pd.why
+		e.useClass("userinfo", p, v, why)
+		if e.panicked("userinfo", resp) {
+			return
+		}
+		ok := resp.Success()
+		sub := resp.Str("sub")
+		switch {
+		case v > 0 && !ok:
+			e.fail("C08:complete:userinfo", "userinfo refused a live %s access token of %s/%s: %s", p.kind(), p.tok.client, p.tok.subject, resp.Describe())
+		case v < 0 && ok:
+			e.fail("C08:userinfo-honours:"+why, "userinfo answered %d with claims for a token string that must not be honoured (%s; forge=%q): %s", resp.Status, why, p.forge, resp.Describe())
+		}
+		if ok && p.tok != nil && sub != p.tok.subject {
+			e.fail("C08:userinfo-wrong-subject", "userinfo for the token of %s returned sub=%q: %s", p.tok.subject, sub, resp.Describe())
+		}
+		if !ok {
+			if l := hasLeak(resp.Body); l != "" {
+				e.fail("C08:userinfo-refusal-leaks", "userinfo refusal (%d) carries user data %q: %s", resp.Status, l, resp.Describe())
+			}
+		}
+		e.res.Label(fmt.Sprintf("userinfo->%v", ok))
+	}
+	return pd
 }
 
 func exactlyInactive(body []byte) bool {
@@ -994,6 +1125,14 @@ func (e *env) introspect(o Op) {
 }
 
 func (e *env) introspectP(o Op, p presented, h int) {
+	pd := e.introspectPrep(o, p, h)
+	e.setFault("SetIntrospectionFromToken", o.Fault)
+	resp := pd.send()
+	e.st.SetFaults()
+	pd.judge(pd, resp)
+}
+
+func (e *env) introspectPrep(o Op, p presented, h int) *pending {
 	cl := e.caller(o.Caller, p)
 	if o.Cred == "imp" {
 		e.warmUp(cl, o, p, h)
@@ -1016,47 +1155,51 @@ func (e *env) introspectP(o Op, p presented, h int) {
 	case auth == 0:
 		why = "auth-method-grey"
 	}
-	e.useClass("introspect", p, v, why)
-	e.res.Label("introspect-as:" + cl.AuthMethod + ":" + o.Cred)
-	e.setFault("SetIntrospectionFromToken", o.Fault)
+	pd := &pending{endpoint: "introspect", p: p, v: v, why: why}
+	e.res.Label("introspect-as:"+cl.AuthMethod+":"+o.Cred, "introspect-by:"+cl.AuthMethod+"/"+cl.AppType)
 	cred := spoofed(e.credOp(cl, o, h), o.Spoof, cl, p)
 	if cred.BodyID != "" {
 		e.res.Label("introspect-spoofed-client_id")
 	}
-	resp := e.ags[h].Introspect(p.str, cred)
-	e.st.SetFaults()
-	if e.panicked("introspect", resp) {
-		return
-	}
-	m := resp.JSON()
-	active := resp.Success() && m != nil && m["active"] == true
-	if resp.Success() && !active && !exactlyInactive(resp.Body) {
-		fp := "C08:introspect-inactive-discloses"
-		if o.Fault != "" {
-			fp += ":storage-" + o.Fault
+	ag := e.ags[h]
+	pd.send = func() *vkit.Resp { return ag.Introspect(p.str, cred) }
+	pd.judge = func(pd *pending, resp *vkit.Resp) {
+		v, why := pd.v, pd.why
+		e.useClass("introspect", p, v, why)
+		if e.panicked("introspect", resp) {
+			return
 		}
-		e.fail(fp, "inactive introspection answer is not exactly {\"active\":false} (%s, caller %s): %s", why, cl.ID, resp.Describe())
-	}
-	if !resp.Success() {
-		if l := hasLeak(resp.Body); l != "" {
-			e.fail("C08:introspect-refusal-leaks", "introspection refusal (%d) carries user data %q: %s", resp.Status, l, resp.Describe())
+		m := resp.JSON()
+		active := resp.Success() && m != nil && m["active"] == true
+		if resp.Success() && !active && !exactlyInactive(resp.Body) {
+			fp := "C08:introspect-inactive-discloses"
+			if o.Fault != "" {
+				fp += ":storage-" + o.Fault
+			}
+			e.fail(fp, "inactive introspection answer is not exactly {\"active\":false} (%s, caller %s): %s", why, cl.ID, resp.Describe())
 		}
-	}
-	switch {
-	case v > 0 && !active:
-		e.fail("C08:complete:introspect", "introspection by authenticated audience member %s of a live %s token reported inactive: %s", cl.ID, p.kind(), resp.Describe())
-	case v < 0 && active:
-		e.fail("C08:introspect-active:"+why, "introspection reported active:true although it must not (%s; caller %s cred %s; forge=%q): %s", why, cl.ID, o.Cred, p.forge, resp.Describe())
-	}
-	if active && p.tok != nil {
-		if s, _ := m["sub"].(string); s != p.tok.subject {
-			e.fail("C08:introspect-wrong-claims", "active answer for the token of %s carries sub=%q", p.tok.subject, s)
+		if !resp.Success() {
+			if l := hasLeak(resp.Body); l != "" {
+				e.fail("C08:introspect-refusal-leaks", "introspection refusal (%d) carries user data %q: %s", resp.Status, l, resp.Describe())
+			}
 		}
-		if s, _ := m["client_id"].(string); s != p.tok.client {
-			e.fail("C08:introspect-wrong-claims", "active answer for the token of client %s carries client_id=%q", p.tok.client, s)
+		switch {
+		case v > 0 && !active:
+			e.fail("C08:complete:introspect", "introspection by authenticated audience member %s of a live %s token reported inactive: %s", cl.ID, p.kind(), resp.Describe())
+		case v < 0 && active:
+			e.fail("C08:introspect-active:"+why, "introspection reported active:true although it must not (%s; caller %s cred %s; forge=%q): %s", why, cl.ID, o.Cred, p.forge, resp.Describe())
 		}
+		if active && p.tok != nil {
+			if s, _ := m["sub"].(string); s != p.tok.subject {
+				e.fail("C08:introspect-wrong-claims", "active answer for the token of %s carries sub=%q", p.tok.subject, s)
+			}
+			if s, _ := m["client_id"].(string); s != p.tok.client {
+				e.fail("C08:introspect-wrong-claims", "active answer for the token of client %s carries client_id=%q", p.tok.client, s)
+			}
+		}
+		e.res.Label(fmt.Sprintf("introspect->%d/%v", resp.Status/100, active))
 	}
-	e.res.Label(fmt.Sprintf("introspect->%d/%v", resp.Status/100, active))
+	return pd
 }
 
 func (e *env) kill(t *mtok, how string) {
@@ -1071,8 +1214,9 @@ func (e *env) kill(t *mtok, how string) {
 	e.deaths++
 }
 
-func (e *env) revoke(o Op) {
-	p := e.resolve(o.Tok, 0)
+func (e *env) revoke(o Op) { e.revokeP(o, e.resolve(o.Tok, 0)) }
+
+func (e *env) revokeP(o Op, p presented) {
 	if p.tok == nil {
 		// A string that unseals to the id of a token record with another subject: the revocation interface identifies
 		// the record by id, so for revocation this is an alias of that record (grey answer; effect only for its owner).
@@ -1125,8 +1269,26 @@ func (e *env) revoke(o Op) {
 	default:
 		v, why = -1, "foreign"
 	}
-	verdict := map[int]string{1: "must-200", -1: "must-refuse", 0: "grey"}[v]
-	e.res.Label("revoke:"+verdict+":"+why, "revoke-hint:"+o.Hint, "revoke-as:"+cl.AuthMethod+":"+o.Cred, "tok:"+p.kind())
+	// v0: the expectation without storage trouble. A storage failure at the revocation call (or at the refresh-token lookup
+	// before it) makes the answer to a request that would have to be served grey - but a 200 still says "revoked"
+	v0 := v
+	faultMethod := ""
+	if o.Fault != "" {
+		faultMethod = "RevokeToken"
+		if o.FaultAt == "lookup" {
+			faultMethod = "GetRefreshTokenInfo"
+		}
+	}
+	e.res.Label("revoke-hint:"+o.Hint, "revoke-as:"+cl.AuthMethod+":"+o.Cred, "revoke-by:"+cl.AuthMethod+"/"+cl.AppType+":"+o.Cred, "tok:"+p.kind())
+	// the refresh token's string (the storage's choice) unseals to text with a colon, i.e. looks like an opaque access token:
+	// its own root-cause class in the fingerprints
+	fpPair := ""
+	if p.tok != nil && p.tok.kind == "refresh" && p.class == "genuine" {
+		if pt, ok := unseal(p.str, e.key); ok && strings.Contains(pt, ":") {
+			fpPair = ":string-unseals-to-pair"
+			e.res.Label("revoke-of-refresh-token-that-unseals-to-a-pair:" + relation + ":hint-" + o.Hint)
+		}
+	}
 	if p.forge != "" {
 		e.res.Label("forge:" + p.forge)
 	}
@@ -1137,7 +1299,21 @@ func (e *env) revoke(o Op) {
 	if cred.BodyID != "" {
 		e.res.Label("revoke-spoofed-client_id")
 	}
+	j0 := len(e.st.Journal)
+	e.setFault(faultMethod, o.Fault)
 	resp := e.ags[0].Revoke(p.str, o.Hint, cred)
+	e.st.SetFaults()
+	// the failure is part of the request's story only if the request reached the failing call
+	faulted := o.Fault != "" && e.faultFired(j0)
+	e.lastFaulted = faulted
+	if faulted {
+		if v > 0 {
+			v, why = 0, "storage-fault:"+why
+		}
+		e.res.Label("revoke-fault:" + faultMethod + ":" + o.Fault)
+	}
+	verdict := map[int]string{1: "must-200", -1: "must-refuse", 0: "grey"}[v]
+	e.res.Label("revoke:" + verdict + ":" + why)
 	if e.panicked("revoke", resp) {
 		return
 	}
@@ -1148,14 +1324,22 @@ func (e *env) revoke(o Op) {
 	case v > 0 && !ok:
 		e.fail("C08:revoke-owner-refused", "revocation by the owning client %s (hint=%q, %s token) was refused: %s", cl.ID, o.Hint, p.kind(), resp.Describe())
 	case v < 0 && ok:
-		e.fail("C08:revoke-accepted:"+why, "revocation attempt that must be refused (%s: caller %s cred %s, token of %v) answered %d", why, cl.ID, o.Cred, ownerOf(p), resp.Status)
+		fp := "C08:revoke-accepted:" + why
+		if fpPair != "" {
+			fp += ":hint-" + o.Hint + fpPair
+		}
+		e.fail(fp, "revocation attempt that must be refused (%s: caller %s cred %s, token of %v) answered %d", why, cl.ID, o.Cred, ownerOf(p), resp.Status)
 	}
 	// effect on the model: only an authenticated owner kills; everything else changes nothing
 	if p.tok != nil && relation == "owner" && auth >= 0 {
 		effective := e.storeDead(p.tok)
 		switch {
-		case v > 0 && ok && !effective:
-			e.fail("C08:revoke-200-without-effect:"+p.tok.kind+":hint-"+o.Hint, "revocation of a %s token by its owner %s with token_type_hint=%q answered %d but the token was not revoked", p.tok.kind, cl.ID, o.Hint, resp.Status)
+		case v0 > 0 && ok && !effective:
+			fp := "C08:revoke-200-without-effect:" + p.tok.kind + ":hint-" + o.Hint + fpPair
+			if faulted {
+				fp += ":storage-fault"
+			}
+			e.fail(fp, "revocation of a %s token by its owner %s with token_type_hint=%q (storage fault: %q at %s) answered %d but the token was not revoked", p.tok.kind, cl.ID, o.Hint, o.Fault, faultMethod, resp.Status)
 		case v == 0 || !ok:
 			// grey (alias string / auth method / id-only storage): follow what storage did; later uses are judged either way
 			e.res.Label("revoke-grey-synced")
@@ -1220,17 +1404,46 @@ func (e *env) endSession(o Op) {
 	default:
 		q.Set("client_id", g.client)
 	}
+	// a storage failure at the call that terminates the session: TerminateSessionFromRequest where the storage offers it
+	// (op.CanTerminateSessionFromRequest), else TerminateSession
+	faultMethod := ""
+	if o.Fault != "" {
+		faultMethod = "TerminateSession"
+		if e.c.Extras {
+			faultMethod = "TerminateSessionFromRequest"
+		}
+	}
+	j0 := len(e.st.Journal)
+	e.setFault(faultMethod, o.Fault)
 	resp := e.ags[h].EndSession(q)
+	e.st.SetFaults()
+	faulted := o.Fault != "" && e.faultFired(j0)
+	e.lastFaulted = faulted
 	if e.panicked("end_session", resp) {
 		return
 	}
-	e.res.Label("end_session:"+kind, fmt.Sprintf("end_session->%d", resp.Status))
-	if kind != "clientonly" && resp.IsRedirect() {
-		// the session (user, client) of the id token was terminated: every token of that pair is dead from now on
-		for _, t := range e.toks {
-			if t.client == g.client && t.subject == g.subject && !t.ended {
-				e.kill(t, "ended")
-			}
+	// answered as a success (redirect to the post-logout URI / 2xx) = the caller is told that the logout took effect
+	done := resp.IsRedirect() || resp.Success()
+	e.res.Label("end_session:"+kind, fmt.Sprintf("end_session->%d", resp.Status), fmt.Sprintf("end_session-via-request-interface:%v", e.c.Extras))
+	if faulted {
+		e.res.Label("end_session-fault:"+faultMethod+":"+o.Fault, fmt.Sprintf("end_session-fault->success:%v", done))
+	}
+	if kind == "clientonly" {
+		return
+	}
+	for _, t := range e.toks {
+		if t.client != g.client || t.subject != g.subject || t.ended {
+			continue
+		}
+		switch {
+		case done:
+			// the session (user, client) of the id token was terminated: every token of that pair is dead from now on
+			e.kill(t, "ended")
+		case faulted && e.storeDead(t):
+			// the storage reported a failure and the caller was told so; what the storage did before failing is its own
+			// business (fault kind "partial"): the model follows it, later uses are judged either way
+			e.kill(t, "ended")
+			e.res.Label("end_session-failed-grey-synced")
 		}
 	}
 }
@@ -1281,6 +1494,11 @@ func (e *env) exchange(o Op) {
 }
 
 func (e *env) exchangeP(o Op, subj presented, actor *presented, h int) {
+	pd := e.exchangePrep(o, subj, actor, h)
+	pd.judge(pd, pd.send())
+}
+
+func (e *env) exchangePrep(o Op, subj presented, actor *presented, h int) *pending {
 	cl := e.caller(o.Caller, subj)
 	if !cl.HasGrant(vkit.GTE) {
 		cl = e.clients["ca"]
@@ -1311,13 +1529,7 @@ func (e *env) exchangeP(o Op, subj presented, actor *presented, h int) {
 	default:
 		why = awhy
 	}
-	e.useClass("exchange-subject", subj, sv, swhy)
-	if actor != nil {
-		e.useClass("exchange-actor", *actor, av, awhy)
-	}
-	verdict := map[int]string{1: "must-accept", -1: "must-reject", 0: "grey"}[v]
-	e.res.Label("exchange:"+verdict, "exchange:"+verdict+":"+role+":"+why, "exchange-as:"+cl.AuthMethod+":"+o.Cred, "exchange-req:"+o.Req)
-
+	pd := &pending{endpoint: "exchange", p: subj, v: v, why: why}
 	form := url.Values{"grant_type": {vkit.GTE}, "subject_token": {subj.str}, "subject_token_type": {subj.ttype()}, "scope": {"openid"}, "audience": {cl.ID}}
 	if actor != nil {
 		form.Set("actor_token", actor.str)
@@ -1329,46 +1541,57 @@ func (e *env) exchangeP(o Op, subj presented, actor *presented, h int) {
 	case "refresh":
 		form.Set("requested_token_type", "urn:ietf:params:oauth:token-type:refresh_token")
 	}
-	resp := e.ags[h].Token(form, e.credOp(cl, o, h))
-	if e.panicked("exchange", resp) {
-		return
-	}
-	ok := resp.Success()
-	switch {
-	case v > 0 && !ok:
-		e.fail("C08:complete:exchange", "token exchange by %s with a live subject (%s)%s was refused: %s", cl.ID, subj.kind(), actorNote(actor), resp.Describe())
-	case v < 0 && ok:
-		dead := subj
-		if role == "actor" {
-			dead = *actor
+	ag, cred := e.ags[h], e.credOp(cl, o, h)
+	pd.send = func() *vkit.Resp { return ag.Token(form, cred) }
+	pd.judge = func(pd *pending, resp *vkit.Resp) {
+		v, why := pd.v, pd.why
+		e.useClass("exchange-subject", subj, sv, swhy)
+		if actor != nil {
+			e.useClass("exchange-actor", *actor, av, awhy)
 		}
-		sealedPair := false // unseals to "x:y": all the library itself checks of an opaque access token in an exchange
-		if pt, ok := unseal(dead.str, e.key); ok && len(strings.SplitN(pt, ":", 2)) == 2 {
-			sealedPair = true
+		verdict := map[int]string{1: "must-accept", -1: "must-reject", 0: "grey"}[v]
+		e.res.Label("exchange:"+verdict, "exchange:"+verdict+":"+role+":"+why, "exchange-as:"+cl.AuthMethod+":"+o.Cred, "exchange-req:"+o.Req)
+		if e.panicked("exchange", resp) {
+			return
 		}
-		if role != "" && e.c.TELax && ((dead.tok != nil && dead.tok.kind != "refresh") || sealedPair) {
-			// The library never asks storage about access tokens used as exchange input (it only unseals / verifies the
-			// JWT); liveness is left to ValidateTokenExchangeRequest, and this storage variant skips it: not attributable
-			// to the library, counted only.
-			e.res.Label("grey:exchange-honours-dead-access-token:lax-storage")
-			e.res.Grey = true
-		} else {
-			e.fail("C08:exchange-accepts:"+role+":"+why, "token exchange by %s (cred %s) answered %d although it must be refused (%s %s; forge=%q): %s", cl.ID, o.Cred, resp.Status, role, why, dead.forge, short(string(resp.Body)))
+		ok := resp.Success()
+		switch {
+		case v > 0 && !ok:
+			e.fail("C08:complete:exchange", "token exchange by %s with a live subject (%s)%s was refused: %s", cl.ID, subj.kind(), actorNote(actor), resp.Describe())
+		case v < 0 && ok:
+			dead := subj
+			if role == "actor" {
+				dead = *actor
+			}
+			sealedPair := false // unseals to "x:y": all the library itself checks of an opaque access token in an exchange
+			if pt, ok := unseal(dead.str, e.key); ok && len(strings.SplitN(pt, ":", 2)) == 2 {
+				sealedPair = true
+			}
+			if role != "" && e.c.TELax && ((dead.tok != nil && dead.tok.kind != "refresh") || sealedPair) {
+				// The library never asks storage about access tokens used as exchange input (it only unseals / verifies the
+				// JWT); liveness is left to ValidateTokenExchangeRequest, and this storage variant skips it: not attributable
+				// to the library, counted only.
+				e.res.Label("grey:exchange-honours-dead-access-token:lax-storage")
+				e.res.Grey = true
+			} else {
+				e.fail("C08:exchange-accepts:"+role+":"+why, "token exchange by %s (cred %s) answered %d although it must be refused (%s %s; forge=%q): %s", cl.ID, o.Cred, resp.Status, role, why, dead.forge, short(string(resp.Body)))
+			}
+		}
+		e.res.Label(fmt.Sprintf("exchange->%v", ok))
+		adoptSub := ""
+		switch {
+		case subj.tok != nil:
+			adoptSub = subj.tok.subject
+		case subj.id && subj.base != nil: // ID token subject: the token issued for it names the ID token's subject
+			adoptSub = subj.base.subject
+		}
+		if ok && resp.Str("access_token") != "" && adoptSub != "" {
+			if g := e.adopt(resp, cl.ID, adoptSub, "exchange", h); g != nil {
+				e.res.Label("issued-by-exchange:" + g.access.kind)
+			}
 		}
 	}
-	e.res.Label(fmt.Sprintf("exchange->%v", ok))
-	adoptSub := ""
-	switch {
-	case subj.tok != nil:
-		adoptSub = subj.tok.subject
-	case subj.id && subj.base != nil: // ID token subject: the token issued for it names the ID token's subject
-		adoptSub = subj.base.subject
-	}
-	if ok && resp.Str("access_token") != "" && adoptSub != "" {
-		if g := e.adopt(resp, cl.ID, adoptSub, "exchange", h); g != nil {
-			e.res.Label("issued-by-exchange:" + g.access.kind)
-		}
-	}
+	return pd
 }
 
 func actorNote(a *presented) string {
@@ -1404,6 +1627,9 @@ func (e *env) checkState(o Op) {
 			kind := o.Kind
 			if kind == "end_session" {
 				kind += ":" + o.ES
+			}
+			if e.lastFaulted {
+				kind += ":storage-fault"
 			}
 			e.fail("C08:state:"+kind+":"+state, "after %s the %s token %s of %s/%s is %s in storage (model: revoked=%v ended=%v)", o.Kind, t.kind, t.id, t.client, t.subject, state, t.revoked, t.ended)
 			// continue from what storage says so that one cause is reported once
@@ -1446,6 +1672,11 @@ func run(c Case) (res *vkit.Result) {
 		// a second private_key_jwt client: another key, registered under the same kid as ck's (or under a kid of its own)
 		{ID: "ck2", AppType: "web", AuthMethod: "private_key_jwt", GrantTypes: codeGrants, ResponseTypes: []string{"code"}, RedirectURIs: []string{redirectURI}, JWTAccessToken: jwt("ck2"), Keys: map[string]string{k2kid: "rsa2"}},
 	}
+	for _, cl := range clients {
+		if at := c.AppTypes[cl.ID]; oneOf(at, "web", "native", "user_agent") {
+			cl.AppType = at
+		}
+	}
 	pol := vkit.StorePolicy{ErrStyle: c.ErrStyle}
 	pol.TE.NoLivenessCheck = c.TELax
 	pol.RefreshIDs = c.RefreshIDs
@@ -1470,13 +1701,14 @@ func run(c Case) (res *vkit.Result) {
 		spec.Caps.Extras = true
 	}
 	sut := vkit.MustBuild(spec, st)
-	e := &env{c: c, res: res, st: st, sut: sut, clients: st.Clients, key: aesKey(c.CryptoKey), byID: map[string]*mtok{}, keys: map[string]bool{}, signKey: signKey, badKey: badKey}
+	e := &env{c: c, res: res, st: st, sut: sut, clients: st.Clients, key: aesKey(c.CryptoKey), byID: map[string]*mtok{}, keys: map[string]bool{}, signKey: signKey, badKey: badKey, gateJ0: -1}
 	e.ags[0] = vkit.NewAgent(sut)
 	e.ags[1] = vkit.NewAgent(sut)
 	e.ags[1].Host = "other.example.com"
 
 	for i, o := range c.Ops {
 		e.trace = append(e.trace, fmt.Sprintf("%d:%s", i, describe(o)))
+		e.lastFaulted = false
 		switch o.Kind {
 		case "issue":
 			e.issue(o)
@@ -1492,6 +1724,8 @@ func run(c Case) (res *vkit.Result) {
 			e.expire(o)
 		case "exchange":
 			e.exchange(o)
+		case "par":
+			e.par(o)
 		}
 		e.checkState(o)
 	}
@@ -1530,6 +1764,12 @@ func (e *env) sweep() {
 		}
 		p := presented{str: t.str, tok: t, class: "genuine", base: t}
 		e.trace = append(e.trace, fmt.Sprintf("sweep:%s(%s)", t.id, t.death()))
+		if cl := e.clients[t.client]; cl != nil && cl.AuthMethod != "none" {
+			// a caller that merely NAMES the token's client (client_id in the form / Basic with an empty password) is not the
+			// owner, whatever application type the client was registered with: refused, and the token stays what it was
+			e.revokeP(Op{Kind: "revoke", Caller: t.client, Cred: []string{"idonly", "empty-basic"}[i%2], Hint: []string{"", "access_token", "refresh_token"}[i%3]}, p)
+			e.checkState(Op{Kind: "sweep-revoke-by-name"})
+		}
 		if t.kind != "refresh" {
 			e.userinfoP(Op{Kind: "userinfo", Form: i%2 == 1}, p, h)
 			for _, a := range append([]string{t.client}, t.aud...) {
@@ -1568,17 +1808,40 @@ func describe(o Op) string {
 		}
 		return s
 	}
+	fault := func() string {
+		if o.Fault == "" {
+			return ""
+		}
+		return ",fault=" + o.Fault + "@" + o.FaultAt
+	}
 	switch o.Kind {
+	case "par":
+		if o.Par == nil {
+			return "par()"
+		}
+		g := o.Par.Gate.Method
+		if g == "" {
+			g = "lookup"
+		}
+		if o.Par.Gate.AtExit {
+			g += "@exit"
+		} else {
+			g += "@entry"
+		}
+		return fmt.Sprintf("par(A=%s held at %s)", describe(o.Par.A), g)
 	case "issue":
+		if o.RTName != "" {
+			return fmt.Sprintf("issue(%s,%s,offline=%v,other=%v,rt-name=%s/%d)", o.Client, o.User, o.Offline, o.Other, o.RTName, o.Tok.Arg)
+		}
 		return fmt.Sprintf("issue(%s,%s,offline=%v,other=%v)", o.Client, o.User, o.Offline, o.Other)
 	case "userinfo":
 		return fmt.Sprintf("userinfo(%s,fault=%s,other=%v)", ref(o.Tok), o.Fault, o.Other)
 	case "introspect":
 		return fmt.Sprintf("introspect(%s,as=%s/%s%s,fault=%s,other=%v)", ref(o.Tok), o.Caller, o.Cred, imp(o), o.Fault, o.Other)
 	case "revoke":
-		return fmt.Sprintf("revoke(%s,hint=%s,as=%s/%s%s)", ref(o.Tok), o.Hint, o.Caller, o.Cred, imp(o))
+		return fmt.Sprintf("revoke(%s,hint=%s,as=%s/%s%s%s)", ref(o.Tok), o.Hint, o.Caller, o.Cred, imp(o), fault())
 	case "end_session":
-		return fmt.Sprintf("end_session(g%d,%s)", o.Tok.Grant, o.ES)
+		return fmt.Sprintf("end_session(g%d,%s%s)", o.Tok.Grant, o.ES, fault())
 	case "expire":
 		return fmt.Sprintf("expire(%s)", ref(o.Tok))
 	case "exchange":
@@ -1593,13 +1856,15 @@ func describe(o Op) string {
 
 var prop = vkit.Prop[Case]{
 	ID: "C08",
-	Rule: "cases = provider (router x static/host-derived issuer x RS256/ES256 x AES key x per-client opaque/JWT access tokens x basic/post client x extra audience x extras capabilities x refresh-token ids equal to / different from the token string x (1/10) storage that skips the liveness check of exchange inputs = grey) " +
-		"x history of 4-31 symbolic ops (issue by 6 clients incl. public, two private_key_jwt clients (different keys registered under the same kid, 1/4: under different kids) and client_credentials; userinfo header/form; introspect as owner/other/public client with right/wrong/no credentials or a made-up secret (Basic / form, also for the public and the private_key_jwt clients, which have none) " +
+	Rule: "cases = provider (router x static/host-derived issuer x RS256/ES256 x AES key x per-client opaque/JWT access tokens x basic/post client x extra audience x extras capabilities (storage offers op.CanTerminateSessionFromRequest) x refresh-token ids equal to / different from the token string x (1/10) storage that skips the liveness check of exchange inputs = grey " +
+		"x (2/3) application type web / native / user-agent drawn per client independently of its registered auth method (basic, post, none, private_key_jwt, client_credentials)) " +
+		"x history of 4-31 symbolic ops (issue by 6 clients incl. public, two private_key_jwt clients (different keys registered under the same kid, 1/4: under different kids) and client_credentials, (1/3 of offline issuances) the storage names the refresh token with a string that unseals under the provider's AES-CFB key to text with a colon (unknown id:subject, x:y, ':', binary, several colons); userinfo header/form; introspect as owner/other/public client with right/wrong credentials, client_id only, Basic with an empty password, or a made-up secret (Basic / form, also for the public and the private_key_jwt clients, which have none) " +
 		"or by impersonation (a client assertion naming the client as iss/sub but signed by the other private_key_jwt client with its own key and kid, 3/4 right after that sender authenticated legitimately as itself, 1/4 cold; also at revocation and exchange: never authenticated => never active:true, revocation and exchange refused); " +
-		"revoke with hint none/access_token/refresh_token/junk as owner/foreign/public/unauthenticated (incl. made-up secret); end_session by fresh or expired-but-validly-signed id_token_hint (with / without client_id) or client_id only; expire; token exchange with subject and optional actor) over genuine access and refresh tokens and 23 forging recipes " +
+		"revoke with hint none/access_token/refresh_token/junk as owner/foreign/public/unauthenticated (incl. client_id only, Basic with empty password, made-up secret), (1/6) with a storage failure (14 fault kinds incl. partial and library sentinels) at Storage.RevokeToken or at the refresh-token lookup: a 200 still means revoked; end_session by fresh or expired-but-validly-signed id_token_hint (with / without client_id) or client_id only, (1/4) with a storage failure at TerminateSession / TerminateSessionFromRequest: an answer that reports success (redirect / 2xx) means every token of the session is dead, a reported failure is grey (model follows the storage); expire; token exchange with subject and optional actor; " +
+		"(2/24) concurrent step: a userinfo / introspection / exchange request A is parked by a vkit gate inside one of its storage calls (token lookup 3/5, caller authentication, key lookups, minting; on entry / on exit), a revocation / logout / expiry completes and is acknowledged, then 1-2 requests B (the same request again, the same endpoint, another endpoint) are started before A is released: B is judged by the sequential oracle against the model after the kill whatever is in flight, A is asserted only where its verdict cannot depend on the kill) over genuine access and refresh tokens and 23 forging recipes " +
 		"(CFB bit flips, targeted malleation to a sibling token, re-sealing under the same / another key, unknown id, wrong subject, truncation, extension, JWT clone / untrusted key / no kid / expired / other issuer / alg none / HS256 with public key / signature flip / payload swap, raw garbage, storage faults error/partial); " +
-		"after 3 of 4 histories every token is presented once more at userinfo, introspection (by an authenticated audience member, by its own client with a made-up secret, and by a private_key_jwt client impersonating its client) and exchange (sweep); oracle = per-token liveness (issued, not revoked, not expired, session not ended) + audience + authenticated caller, string denotation computed with crypto/aes; " +
-		"non-trivial = the history uses a token after its revocation / logout / expiry, or presents a forged string derived from a live token; distinct = router + set of (endpoint, token kind, forging recipe, verdict, reason) of those uses",
+		"after 3 of 4 histories every token is presented once more: a revocation attempt by a caller that merely names its (non-public) client - client_id only / Basic with empty password - must be refused and change nothing; userinfo, introspection (by an authenticated audience member, by its own client with a made-up secret, and by a private_key_jwt client impersonating its client) and exchange (sweep); oracle = per-token liveness (issued, not revoked, not expired, session not ended) + audience + authenticated caller, string denotation computed with crypto/aes, storage tables compared with the model after every step; " +
+		"non-trivial = the history uses a token after its revocation / logout / expiry, or presents a forged string derived from a live token, or starts a request for a dead token while an earlier request for it is held in flight; distinct = router + set of (endpoint, token kind, forging recipe, verdict, reason) of those uses + (held endpoint, gate side, kill kind, later endpoint) of concurrent steps",
 	Gen: genCase,
 	Run: run,
 }
